@@ -203,6 +203,14 @@ func startModules() error {
 			rep = <-reports
 			if rep.err != nil {
 				rep.module.NewErrorMessage("start module", rep.err).Report()
+				// Wait for the starts that are still under way. Returning now would
+				// leave their modules in the starting state, where a shutdown cannot
+				// stop them, and they would come online after it.
+				for reportCnt++; reportCnt < execCnt; reportCnt++ {
+					if other := <-reports; other.err != nil {
+						other.module.NewErrorMessage("start module", other.err).Report()
+					}
+				}
 				return fmt.Errorf("modules: could not start module %s: %w", rep.module.Name, rep.err)
 			}
 			reportCnt++
